@@ -679,8 +679,11 @@ fill_yly_eastr(
 	for (bitint_iter_t easteri = 0UL;
 	     (offs = bi383_next(&easteri, s), easteri);) {
 		/* easter offset calendar */
-		unsigned int yd;
+		int yd;
 		struct md_s md;
+		/* the year and candidate set the day ends up in */
+		unsigned int ty = y;
+		size_t k = 0U;
 
 		if (wd_mask >> 1U) {
 			if (offs >= 0 &&
@@ -693,17 +696,23 @@ fill_yly_eastr(
 		}
 		if (!(yd = easter_get_yday(y))) {
 			continue;
-		} else if (!(yd += offs) || yd > 366) {
-			/* huh? */
-			continue;
-		} else if (!(md = yd_to_md(y, yd)).m) {
+		} else if ((yd += offs) < 1) {
+			/* that's in the year before */
+			ty = y - 1U, k = 1U;
+			yd += 365 + !(ty % 4U);
+		} else if (yd > 365 + !(y % 4U)) {
+			/* that's in the year after */
+			yd -= 365 + !(y % 4U);
+			ty = y + 1U, k = 2U;
+		}
+		if (!(md = yd_to_md(ty, yd)).m || md.m > 12U) {
 			continue;
 		} else if (!md_match_p(md, m, d)) {
 			/* can't use this one, user wants it masked */
 			continue;
 		}
 		/* otherwise it's looking good */
-		ass_bi383(cand, pack_cand(md.m, md.d));
+		ass_bi383(&cand[k], pack_cand(md.m, md.d));
 	}
 	return;
 }
@@ -1051,8 +1060,10 @@ rrul_fill_yly(echs_instant_t *restrict tgt, size_t nti, rrulsp_t rr)
 		}
 	}
 
+	/* start a year early when dates can move forward into our year */
 	y -= echs_shift_dvalue(rr->shift) > 0 ||
-		echs_shift_bday_p(rr->shift) && !echs_shift_neg_p(rr->shift);
+		echs_shift_bday_p(rr->shift) && !echs_shift_neg_p(rr->shift) ||
+		bi383_has_bits_p(&rr->easter);
 
 	/* fill up the array the hard way */
 	for (res = 0UL, tries = 64U; res < nti && y < 2100U && --tries; y += rr->inter) {
